@@ -337,6 +337,14 @@ def execute_tasks_with_dependencies(
             and "shutdown" in task_dict.keys()
             and task_dict["shutdown"]
         ):
+            while len(wait_lst) > 0:
+                # tasks still waiting for their inputs have to be forwarded before the executor is shut down
+                number_waiting = len(wait_lst)
+                wait_lst = _submit_waiting_task(
+                    wait_lst=wait_lst, executor_queue=executor_queue
+                )
+                if len(wait_lst) == number_waiting:
+                    sleep(refresh_rate)
             executor.shutdown(wait=task_dict["wait"])
             future_queue.task_done()
             future_queue.join()
